@@ -56,7 +56,8 @@ WORKERS = {"quick": 16, "thorough": 16}
 REQUIRE = {"requests": 400, "responses_compared": 450, "status_int_checked": 200, "status_ds_checked": 40,
            "extras_checked": 15, "nostatus_checked": 4, "badtype_checked": 8, "exception_checked": 20,
            "datasets_compared": 70, "unencodable_checked": 10, "count_dest_codes_checked": 20,
-           "ts_explicit": 50, "ts_implicit": 50, "ts_big": 15, "ts_deflated": 15, "status_int_subclass_checked": 6}
+           "ts_explicit": 50, "ts_implicit": 50, "ts_big": 15, "ts_deflated": 15, "status_int_subclass_checked": 6,
+           "store_received_chunked": 5, "store_chunked_file_moved_or_deleted_by_handler": 2}
 MAX_INCONCLUSIVE_FRAC = 0.03
 EXTRA_KEYS = {"ErrorComment": "ec", "OffendingElement": "oe", "ErrorID": "eid", "AttributeIdentifierList": "ail"}
 
@@ -118,6 +119,10 @@ def check_with(case, obs, quirks):
     dimse = svc["dimse"]
     viol = []
     c = {"requests": 1, "ts_" + case["ts"]: 1}
+    if case.get("recv_chunked"):
+        c["store_received_chunked"] = 1
+        if H.hlog_has(obs, "file-move") or H.hlog_has(obs, "file-delete"):
+            c["store_chunked_file_moved_or_deleted_by_handler"] = 1
     seen = set()
 
     def add(key, detail):
